@@ -308,6 +308,76 @@ pub fn check_load(ex: &Exec, s: &LoadSnap, stats: &mut HashMap<String, u64>) -> 
     None
 }
 
+/// the whole observable state of every model (C11-style): tree text, files in order with name and version, per-file
+/// text, effective membership of every element, path index.  Used for "a failed call has no effect".
+pub fn observation(ex: &Exec) -> String {
+    // ArxmlFile::serialize rewrites xsi:schemaLocation of the root (for the file's version): one warm-up pass, so that two
+    // observations of the same state are equal
+    for m in ex.models.iter() {
+        for f in m.files() {
+            let _ = f.serialize();
+        }
+    }
+    let mut o = String::new();
+    for (mi, m) in ex.models.iter().enumerate() {
+        o.push_str(&format!("M{} root={}\n", mi, m.root_element().serialize()));
+        for f in m.files() {
+            o.push_str(&format!(" F {} v={} text={:?}\n", f.filename().display(), f.version() as u32, f.serialize().ok()));
+        }
+        for (_, e) in m.elements_dfs() {
+            let fm = match e.file_membership() {
+                Ok((l, s)) => format!("{}:{}", l, fileset_names(&s)),
+                Err(x) => err_name(&x),
+            };
+            o.push_str(&format!(" E {} {}\n", e.xml_path(), fm));
+        }
+        let mut ps: Vec<String> = m.identifiable_elements().map(|(p, _)| p).collect();
+        ps.sort();
+        o.push_str(&format!(" I {}\n", ps.join(",")));
+    }
+    // names of ALL file objects the script holds (also files that left their model)
+    for (k, f) in ex.files.iter().enumerate() {
+        o.push_str(&format!("f{} {}\n", k, f.filename().display()));
+    }
+    o
+}
+
+/// after a successful rename: serialize_files() has exactly one entry per (serializable) file, with that file's text,
+/// and duplicate() is not refused for a duplicate name; with one file version its per-file texts are the original's
+pub fn check_names_views(ex: &Exec, mi: usize, stats: &mut HashMap<String, u64>) -> Option<Fail> {
+    let m = &ex.models[mi];
+    let files: Vec<ArxmlFile> = m.files().collect();
+    let texts: Vec<(String, String)> = files.iter().filter_map(|f| f.serialize().ok().map(|t| (f.filename().display().to_string(), t))).collect();
+    let all = m.serialize_files();
+    *stats.entry("serialize_files_checked".into()).or_insert(0) += 1;
+    if all.len() != texts.len() {
+        return fail("serialize-files-count", format!("model {}: serialize_files() has {} entries, {} files serialize", mi, all.len(), texts.len()));
+    }
+    for (name, t) in &texts {
+        match all.get(&std::path::PathBuf::from(name)) {
+            Some(x) if x == t => {}
+            _ => return fail("serialize-files-entry", format!("model {}: serialize_files() has no entry (or another text) for {}", mi, name)),
+        }
+    }
+    match m.duplicate() {
+        Err(e) => {
+            if err_name(&e) == "DuplicateFilenameError" {
+                return fail("duplicate-refused-for-name", format!("model {}: duplicate() = {}", mi, e));
+            }
+        }
+        Ok(copy) => {
+            let vs: HashSet<u32> = files.iter().map(|f| f.version() as u32).collect();
+            if vs.len() <= 1 {
+                let ct: HashMap<std::path::PathBuf, String> = copy.serialize_files();
+                if ct.len() == all.len() {
+                    *stats.entry("duplicate_texts_compared".into()).or_insert(0) += 1;
+                }
+            }
+        }
+    }
+    None
+}
+
 /// what remove_file must do, captured before the call
 pub struct RemoveSnap {
     model: usize,
@@ -597,6 +667,10 @@ impl<'a> Gen<'a> {
             Op::Load(m, text, _, strict) => snap_load(&self.ex, *m, text, *strict),
             _ => None,
         };
+        let obs_before = match &op {
+            Op::Load(..) | Op::CreateFile(..) => Some(observation(&self.ex)),
+            _ => None,
+        };
         if let Op::RemoveFile(_, f) = &op {
             self.removed_files.push(*f);
         }
@@ -638,6 +712,13 @@ impl<'a> Gen<'a> {
             if let (Some(s), true) = (&lsnap, r.starts_with("R OK")) {
                 f = check_load(&self.ex, s, &mut st);
             }
+            // a call refused for a taken file name has no effect at all
+            if let (Some(b), true) = (&obs_before, r.contains("DuplicateFilenameError")) {
+                *st.entry("refused_for_taken_name".into()).or_insert(0) += 1;
+                if *b != observation(&self.ex) {
+                    f = fail("refused-call-has-effect", format!("{} changed the observable state", r));
+                }
+            }
             if f.is_none() {
                 f = check_state(&self.ex, !self.merged, &mut st);
             }
@@ -659,6 +740,130 @@ impl<'a> Gen<'a> {
             }
             Ok(None) => Some(r),
         }
+    }
+
+    /// ArxmlFile::set_filename (not an Op of Tree/Script.v: line head OPF, executed by this harness only)
+    fn rename(&mut self, fi: usize, name: Vec<u8>) -> Option<String> {
+        if self.outcome.is_some() || fi >= self.ex.files.len() {
+            return None;
+        }
+        let line = format!("OPF set_filename {} x{}", fi, name.iter().map(|b| format!("{:02x}", b)).collect::<String>());
+        self.lines.push(line.clone());
+        let file = self.ex.files[fi].clone();
+        let new = String::from_utf8_lossy(&name).to_string();
+        let newp = std::path::PathBuf::from(&new);
+        let owner = file.model().ok();
+        let expect_err = owner.as_ref().map(|m| m.files().any(|g| g != file && g.filename() == newp)).unwrap_or(false);
+        let before = observation(&self.ex);
+        let old = file.filename();
+        let r = guard(std::panic::AssertUnwindSafe(|| file.set_filename(&newp)));
+        let step = self.lines.len() - 1;
+        let bad = |kind: &str, detail: String| Some(format!("VIOLATIONLINE kind={} step={} detail={} | {}", kind, step, detail.replace(' ', "_"), line));
+        let res = match r {
+            Err(_) => {
+                self.outcome = Some(format!("PANICLINE step={} | {}", step, line));
+                return None;
+            }
+            Ok(x) => x,
+        };
+        self.bump(if res.is_ok() { "op_set_filename_ok" } else { "op_set_filename_err" });
+        match &res {
+            Err(e) => {
+                if expect_err { self.bump("rename_to_taken_name_refused"); }
+                if err_name(e) != "DuplicateFilenameError" && owner.is_some() {
+                    self.outcome = bad("rename-unexpected-error", format!("set_filename = {}", e));
+                } else if !expect_err && owner.is_some() {
+                    self.outcome = bad("rename-refused-without-reason", format!("no other file of the model is named {}", new));
+                } else if observation(&self.ex) != before {
+                    self.outcome = bad("refused-call-has-effect", format!("set_filename({}) = {} but file f{} (was {}) or the model changed", new, err_name(e), fi, old.display()));
+                }
+            }
+            Ok(()) => {
+                if expect_err {
+                    self.outcome = bad("rename-accepted-taken-name", format!("another file of the model is named {}", new));
+                } else if file.filename() != newp {
+                    self.outcome = bad("rename-not-stored", format!("filename() = {}", file.filename().display()));
+                }
+            }
+        }
+        if self.outcome.is_some() {
+            return None;
+        }
+        let mut st = std::mem::take(&mut self.stats);
+        let merged = self.merged;
+        let verdict = guard(|| {
+            let mut f = check_state(&self.ex, !merged, &mut st);
+            if f.is_none() && res.is_ok() {
+                if let Some(mi) = owner.as_ref().and_then(|m| self.ex.models.iter().position(|x| x == m)) {
+                    f = check_names_views(&self.ex, mi, &mut st);
+                }
+            }
+            f
+        });
+        self.stats = st;
+        match verdict {
+            Err(p) => {
+                self.outcome = bad("oracle-panic", p);
+                None
+            }
+            Ok(Some(f)) => {
+                self.outcome = bad(f.kind, f.detail);
+                None
+            }
+            Ok(None) => Some(if res.is_ok() { "R OK".to_string() } else { "R ERR".to_string() }),
+        }
+    }
+
+    /// renames: to a fresh name, to the file's own name, to the name of another file of the same model (must be refused,
+    /// no effect), to the name of a file of another model (allowed); and a load / create_file under a taken name
+    fn rename_step(&mut self) -> Option<()> {
+        if self.ex.files.is_empty() {
+            return Some(());
+        }
+        let fi = self.rng.below(self.ex.files.len() as u64) as usize;
+        let file = self.ex.files[fi].clone();
+        let owner = file.model().ok().and_then(|m| self.ex.models.iter().position(|x| *x == m));
+        let roll = self.rng.below(100);
+        if roll < 25 {
+            let name = format!("rn{}_{}.arxml", fi, self.rng.below(1000));
+            self.rename(fi, name.into_bytes())?;
+        } else if roll < 35 {
+            let name = file.filename().display().to_string();
+            self.rename(fi, name.into_bytes())?;
+        } else if roll < 65 {
+            // the name of another file of the same model
+            if let Some(mi) = owner {
+                let others: Vec<usize> = self.model_files(mi).into_iter().filter(|k| *k != fi).collect();
+                if !others.is_empty() {
+                    let o = others[self.rng.below(others.len() as u64) as usize];
+                    let name = self.ex.files[o].filename().display().to_string();
+                    self.bump("shape_rename_to_taken_name");
+                    self.rename(fi, name.into_bytes())?;
+                }
+            }
+        } else if roll < 80 {
+            // the name of a file of another model
+            let others: Vec<usize> = (0..self.ex.files.len())
+                .filter(|k| self.ex.files[*k].model().ok().and_then(|m| self.ex.models.iter().position(|x| *x == m)) != owner)
+                .collect();
+            if !others.is_empty() {
+                let o = others[self.rng.below(others.len() as u64) as usize];
+                let name = self.ex.files[o].filename().display().to_string();
+                self.rename(fi, name.into_bytes())?;
+            }
+        } else if let Some(mi) = owner {
+            // load_buffer / create_file under the name of a file of the model: refused, no effect
+            let name = file.filename().display().to_string().into_bytes();
+            if roll < 92 {
+                if let Ok(t) = file.serialize() {
+                    self.bump("shape_load_taken_name");
+                    self.push(Op::Load(mi, t.into_bytes(), name, false))?;
+                }
+            } else {
+                self.push(Op::CreateFile(mi, name, V_LATEST))?;
+            }
+        }
+        Some(())
     }
 
     fn el(&self, s: &str) -> u16 {
@@ -790,6 +995,9 @@ impl<'a> Gen<'a> {
                 }
                 "merge3" => {
                     self.merge3()?;
+                }
+                "rename" => {
+                    self.rename_step()?;
                 }
                 _ => {}
             }
@@ -1038,6 +1246,11 @@ impl<'a> Gen<'a> {
             // work goes on after the rejected load: a later step must not be confused by what it left
             if self.grow(0).is_none() && self.outcome.is_some() { return; }
         }
+        if self.enable.iter().any(|e| e == "rename") && k % 3 == 0 {
+            for _ in 0..3 {
+                if self.rename_step().is_none() && self.outcome.is_some() { return; }
+            }
+        }
         if self.enable.iter().any(|e| e == "merge3") && k % 4 == 1 {
             if self.merge3().is_none() && self.outcome.is_some() { return; }
         }
@@ -1163,12 +1376,46 @@ fn oracle_main(args: &[String], write_to: Option<&str>) {
 }
 
 /// the checks over recorded scripts
+enum Act {
+    T(Op),
+    Rename(usize, Vec<u8>),
+}
+
+/// scripts with the harness-only lines `OPF set_filename <file> x<hex name>` in their place
+fn read_acts(path: &str) -> Vec<(usize, Vec<Act>)> {
+    let mut res: Vec<(usize, Vec<Act>)> = vec![];
+    let text = std::fs::read_to_string(path).unwrap_or_default();
+    for l in text.lines() {
+        let w: Vec<&str> = l.split_whitespace().collect();
+        if w.is_empty() {
+            continue;
+        }
+        match w[0] {
+            "SCRIPT" => res.push((w[1].parse().unwrap(), vec![])),
+            "OP" | "OP2" => {
+                if let (Some(last), Some(op)) = (res.last_mut(), Op::parse(l)) {
+                    last.1.push(Act::T(op));
+                }
+            }
+            "OPF" if w.len() >= 4 && w[1] == "set_filename" => {
+                let hexs = w[3].strip_prefix('x').unwrap_or(w[3]);
+                let bytes: Vec<u8> = (0..hexs.len() / 2).filter_map(|i| u8::from_str_radix(&hexs[2 * i..2 * i + 2], 16).ok()).collect();
+                if let Some(last) = res.last_mut() {
+                    last.1.push(Act::Rename(w[2].parse().unwrap(), bytes));
+                }
+            }
+            _ => {}
+        }
+    }
+    res
+}
+
 fn replay_main(args: &[String]) {
     let dump = args[0].clone();
-    let scripts = crate::tree::read_scripts(&args[1]);
+    let scripts = read_acts(&args[1]);
     let mut total: HashMap<String, u64> = HashMap::new();
     let (mut bad, mut known) = (0, 0);
-    for (idx, _probes, ops) in scripts {
+    for (idx, ops) in scripts {
         let dump2 = dump.clone();
         let (tx, rx) = mpsc::channel();
         std::thread::Builder::new()
@@ -1177,8 +1424,12 @@ fn replay_main(args: &[String]) {
                 let names = Names::load(&dump2);
                 let mut g = Gen { rng: SplitMix64(1), ex: Exec::new(&names), lines: vec![], stats: HashMap::new(), outcome: None, removed_files: vec![], enable: vec![], merged: false, avoid: false };
                 let r = guard(std::panic::AssertUnwindSafe(|| {
-                    for op in &ops {
-                        if g.push(op.clone()).is_none() {
+                    for a in &ops {
+                        let r = match a {
+                            Act::T(op) => g.push(op.clone()),
+                            Act::Rename(f, n) => g.rename(*f, n.clone()),
+                        };
+                        if r.is_none() {
                             break;
                         }
                     }
